@@ -290,6 +290,10 @@ func (d *Driver) OpUpdate() {
 		d.OpInsertNew()
 		return
 	}
+	if d.E.VK.Single {
+		d.OpReinsertSame()
+		return
+	}
 	nv := d.diffVal(v)
 	d.log("update %v=%v", k, nv)
 	if err := d.T.Insert(d.E.Ctx, k, nv); err != nil {
@@ -339,8 +343,15 @@ func (d *Driver) OpDeleteAbsent() {
 	if !ok {
 		return
 	}
-	d.log("delete-absent %v", k)
-	err := d.T.Delete(d.E.Ctx, k, d.E.VK.Gen(d.R))
+	v := d.E.VK.Gen(d.R)
+	if i, _ := d.M.Find(k); d.R.Bool() && d.M.Len() > 0 { // the value its neighbour holds
+		if i >= d.M.Len() {
+			i = d.M.Len() - 1
+		}
+		v = deepCopy(d.M.Vals[i])
+	}
+	d.log("delete-absent %v (value %v)", k, v)
+	err := d.T.Delete(d.E.Ctx, k, v)
 	if err == nil {
 		d.fail("delete_absent", nil, "Delete of absent key %v returned nil", k)
 		return
@@ -351,7 +362,7 @@ func (d *Driver) OpDeleteAbsent() {
 
 func (d *Driver) OpDeleteWrong() {
 	k, v, ok := d.presentKey()
-	if !ok {
+	if !ok || d.E.VK.Single {
 		return
 	}
 	wv := d.diffVal(v)
